@@ -22,6 +22,9 @@ CLAIMED = {
  'C11': ("Coq proofs of band-permutation invariance (sums are permutation-invariant), model-permutation equivariance, and the brightness-scaling law scale -> scale - lg(c)/2 with A_V and chi2 unchanged (FitPerm.v, InvarProofs.v) + paired implementation runs incl. fit histories on one Fitter",
          "Theorems C11_band_perm(_chi2,_3d)/model_perm/scale/scale_chi2 for any sizes; paired runs: permuted filters, permuted model rows, scaled photometry, up to 6 interleaved fits per Fitter vs fresh Fitters, before/after state of the Source.",
          "Trusts: as C01/C02. History-independence and non-mutation are established by the correspondence runs only (the model is pure by construction) - partial.", "DESIGN.md 7/C11"),
+ 'C09': ("Coq proof that filter_table's in1d mask + argsort(argsort(names)) gather on the name-sorted table is the by-name lookup for ANY row order of the parameter file (rank_of_rank, uniqueness of strictly sorted permutations; FTable.v, TableProofs.v) and of the (nanmin, best, nanmax) ranges; correspondence through the three writers and filter_table",
+         "Theorems C09_lookup/by_name/lookup_sorted/rank_of_rank/prep_perm/ranges for any table size; write_parameters, write_parameter_ranges, extract_parameters and FitInfo.filter_table run on permuted parameter files with NaN cells, additional-parameter dictionaries, all selector forms and file/object/list inputs; outputs parsed back and compared by (source, rank).",
+         "Trusts: Coq kernel; extraction; driver; harness (text parsing of the listings, name -> integer key encoding preserving byte order). Text layout is not modelled; values compared to the printed 4 significant digits. plot_params_1d/2d hand-off is represented by the same strip+sort+filter_table sequence, not by running the plot code.", "DESIGN.md 7/C09"),
  'C20': ("Coq proof over the statement-by-statement model of Source.from_ascii (SrcAscii.v: slices, strides, truncating division, setter cross-checks) + correspondence on generated token lists incl. every column count",
          "Theorems C20_layout/reject/accept/flags/eof hold for token lists of any length; the extracted from_ascii_m is run against Source.from_ascii on valid lines (all flag vectors n<=3), every column count 0..3n+6 for n<=12, bad flags, bad numbers; round trips through to_ascii, dict and pickle are checked against the printed precision.",
          "Trusts: Coq kernel; extraction directives; driver; harness. int()/float() conversion of tokens is an oracle computed by Python; text formatting (to_ascii) is exercised, not modelled.", "DESIGN.md 7/C20"),
